@@ -130,12 +130,38 @@ type mapIter struct {
 	pos  int          // canonical mode cursor
 	done map[int]bool // order mode: entry indices already produced
 	base int          // order mode: entries present when iteration began
+	fixed []int       // light order mode: the chosen order of the initial entries
+	fpos  int
 }
 
 func (m *Machine) rangeMap(sm *symMap) *mapIter { return m.rangeMapIn(sm, false) }
 
 func (m *Machine) rangeMapIn(sm *symMap, order bool) *mapIter {
 	it := &mapIter{sm: sm}
+	if order && sm != nil && sm.n > 1 && m.orderGlobal != 0 {
+		// global mode: one fixed policy for every range of the evaluation
+		// (1 reversed, 2 rotated left, 3 rotated right); no forks
+		var live []int
+		for i := range sm.ents {
+			if !sm.ents[i].dead {
+				live = append(live, i)
+			}
+		}
+		n := len(live)
+		for i := 0; i < n; i++ {
+			switch m.orderGlobal {
+			case 1:
+				it.fixed = append(it.fixed, live[n-1-i])
+			case 2:
+				it.fixed = append(it.fixed, live[(i+1)%n])
+			default:
+				it.fixed = append(it.fixed, live[(i+n-1)%n])
+			}
+		}
+		it.done = map[int]bool{}
+		it.base = len(sm.ents)
+		return it
+	}
 	if order && sm != nil && sm.n > 1 && m.orderBudget > 0 {
 		// Order exploration is budgeted: at most orderBudget range
 		// instances per evaluation leave the canonical (insertion) order,
@@ -148,6 +174,31 @@ func (m *Machine) rangeMapIn(sm *symMap, order bool) *mapIter {
 		m.orderBudget--
 		it.done = map[int]bool{}
 		it.base = len(sm.ents)
+		if m.orderLight {
+			// light mode: n+1 orders instead of n!: each key first (the
+			// rest in insertion order), or everything reversed. Every key
+			// comes first on some path and every pair of keys is visited
+			// in both relative orders.
+			var live []int
+			for i := range sm.ents {
+				if !sm.ents[i].dead {
+					live = append(live, i)
+				}
+			}
+			c := m.choose(len(live)+1, "maporder-light")
+			if c == len(live) {
+				for i := len(live) - 1; i >= 0; i-- {
+					it.fixed = append(it.fixed, live[i])
+				}
+			} else {
+				it.fixed = append(it.fixed, live[c])
+				for i, x := range live {
+					if i != c {
+						it.fixed = append(it.fixed, x)
+					}
+				}
+			}
+		}
 	}
 	return it
 }
@@ -163,6 +214,28 @@ func (it *mapIter) next(m *Machine) tuple {
 			if e.dead {
 				continue
 			}
+			return tuple{true, e.k, e.v}
+		}
+		return tuple{false, nil, nil}
+	}
+	// light order mode: the fixed order, then entries inserted meanwhile
+	if it.fixed != nil {
+		for it.fpos < len(it.fixed) {
+			i := it.fixed[it.fpos]
+			it.fpos++
+			if it.sm.ents[i].dead {
+				continue
+			}
+			it.done[i] = true
+			e := it.sm.ents[i]
+			return tuple{true, e.k, e.v}
+		}
+		for i := it.base; i < len(it.sm.ents); i++ {
+			if it.sm.ents[i].dead || it.done[i] {
+				continue
+			}
+			it.done[i] = true
+			e := it.sm.ents[i]
 			return tuple{true, e.k, e.v}
 		}
 		return tuple{false, nil, nil}
